@@ -24,7 +24,7 @@ func init() {
 		ID: "C17", Level: "fault_enumeration", PanicClause: "C17.panic",
 		Cases: func(tier string) int {
 			if tier == "quick" {
-				return 900
+				return 1500
 			}
 			return 30000
 		},
